@@ -27,7 +27,7 @@ TRUSTED_EXTRA = [
     "C08_finite_kept is for runs without averaging and without a regulariser; with averaging the search checks finiteness only",
 ]
 KINDS = ["nan", "inf", "-inf", "huge", "raise", "raise-linalg", "raise-value", "raise-overflow"]
-ALLOW = ("bounds", "proj", "avg", "soft", "hard", "npt", "diag", "growing", "scaling")
+ALLOW = ("bounds", "proj", "avg", "soft", "hard", "npt", "diag", "growing", "scaling", "regu")
 
 
 def raise_site(exc):
@@ -73,7 +73,7 @@ def check_faulted(t, d, kw, k, kind, ref_calls):
     # finite x that was evaluated
     if not np.all(np.isfinite(np.asarray(r.x, dtype=float))):
         out.append(("C08:nonfinite-x|" + ctxt, "soln.x=%s" % (r.x,)))
-    for sig, what in so.c03(t, d):
+    for sig, what in so.c03(t, d, h=kw.get("h")):
         out.append(("C08:" + sig, what))
     # a bad value never displaces a finite best point found earlier
     finite_before = [c["v"] for c in t.calls[:max(k - 1, 0)] if c["r"] is not None and np.isfinite(c["v"])] if k > 0 else []
@@ -91,6 +91,8 @@ def check_faulted(t, d, kw, k, kind, ref_calls):
                 if rs:
                     m = np.mean(np.array(rs), axis=0)
                     vm = float(np.dot(m, m))
+                    if kw.get("h") is not None:
+                        vm += float(kw["h"](t.calls[idx[0] - 1]["x"]))      # the objective is sum(r^2) + h(x)
                     if np.isfinite(vm):
                         complete_finite.append(vm)
         if not np.isfinite(obj):
